@@ -182,10 +182,22 @@ def run_worker_cases(ctx):
             # the file holds
             arr = np.arange(idx_len) if len(out) % 3 == 0 else rng.permutation(max(rows, idx_len))[:idx_len]
             kw["samples_idx"] = arr
-        case = dict(family="rw", rows=rows, n_prior=n_prior, idx_len=idx_len, n_batches=nb, pool_size=psize)
+        with_rng = len(out) % 2 == 1  # every second call hands over a generator: each task then carries a child generator as its last element
+        if with_rng:
+            kw["rng"] = np.random.default_rng(5)
+        case = dict(family="rw", rows=rows, n_prior=n_prior, idx_len=idx_len, n_batches=nb, pool_size=psize, with_rng=with_rng)
         try:
             mh.run_worker(lambda t: 0, pool, path, **kw)
-            obs, problems = observe(pool.seen, ("F", "H"), arr)
+            seen = pool.seen
+            extra = []
+            if with_rng:
+                if not all(isinstance(t, (list, tuple)) and len(t) == 5 and isinstance(t[-1], np.random.Generator) for t in seen):
+                    extra.append("with rng, a task does not end in its own numpy Generator")
+                elif len({id(t[-1]) for t in seen}) != len(seen):
+                    extra.append("with rng, two tasks share one Generator object")
+                seen = [tuple(t[:4]) for t in seen]
+            obs, problems = observe(seen, ("F", "H"), arr)
+            problems = extra + problems
             n_tasks = idx_len if idx_len is not None else (n_prior if n_prior is not None else rows)
             problems += predicate(obs, n_tasks, 0, arr is not None)
         except Exception as e:
